@@ -154,6 +154,14 @@ def run_case(prop, seed, souffle, variants_fn, cfg_fn=base_cfg, base_args=(), ba
             pname = "p%d.dl" % i
             with open(os.path.join(d, pname), "w") as f:
                 f.write(v["prog"])
+        if v.get("pre") is not None:
+            # a preparatory run of the same program (e.g. writing the profile that the variant then consumes)
+            r = runner.run_souffle(souffle, d, args=list(base_args) + list(v["pre"]), env_extra=base_env, timeout=timeout * 3, prog=pname, outdir=od + "pre")
+            if runner.crash_key(r) is not None or r.rc != 0:
+                ck = runner.crash_key(r) or "error-exit"
+                viols.append(("%s-pre:crash:%s" % (v["cls"], ck), "preparatory run %s of variant %s failed (%s)\n%s\n%s" % (
+                    v["pre"], v["name"], ck, r.err[-2500:], v.get("prog") or text), v.get("tags", ())))
+                continue
         r = runner.run_souffle(souffle, d, args=list(base_args) + list(v.get("args", ())), env_extra=dict(base_env or {}, **v.get("env", {})),
                                timeout=timeout, prog=pname, outdir=od)
         ck = runner.crash_key(r)
@@ -171,8 +179,9 @@ def run_case(prop, seed, souffle, variants_fn, cfg_fn=base_cfg, base_args=(), ba
             if v.get("may_reject"):
                 rec["counts"]["variant_rejected"] = rec["counts"].get("variant_rejected", 0) + 1
                 continue
-            viols.append(("%s:error-exit" % v["cls"], "variant %s exited with %s where the baseline succeeded\n%s\n%s" % (
-                vdesc, r.rc, r.err[-1500:], v.get("prog") or text), v.get("tags", ())))
+            why = v["errkey"](r.err) if v.get("errkey") else ""
+            viols.append(("%s:error-exit%s" % (v["cls"], ":" + why if why else ""), "variant %s exited with %s where the baseline succeeded\n%s\n%s" % (
+                vdesc, r.rc, "\n".join(l for l in r.err.split("\n") if l.startswith("Error"))[-1500:] or r.err[-1500:], v.get("prog") or text), v.get("tags", ())))
             continue
         outs, problems = runner.read_outputs(d, prog, outdir=od)
         for p in problems:
@@ -181,6 +190,10 @@ def run_case(prop, seed, souffle, variants_fn, cfg_fn=base_cfg, base_args=(), ba
         if diffs:
             viols.append(("%s:wrong-result" % v["cls"], "variant %s changes the output relations:\n  %s\n%s" % (
                 vdesc, "\n  ".join(diffs), v.get("prog") or text), v.get("tags", ())))
+        if v.get("post") is not None:
+            # property-specific extra oracle over the finished variant run
+            for (ksuffix, detail) in v["post"](v, r, d, od, outs, rec):
+                viols.append(("%s:%s" % (v["cls"], ksuffix), "variant %s: %s\n%s" % (vdesc, detail, v.get("prog") or text), v.get("tags", ())))
         eff = True
         if probe is not None:
             eff = probe(v, r, d, od)
